@@ -228,9 +228,15 @@ class Service(object):
         # incomplete transmission (the server would wait for the rest), not
         # an input: clamp it to what is actually sent
         cl = (headers or {}).get('Content-Length')
-        if isinstance(cl, str) and cl.isascii() and cl.isdigit():
+        try:
+            # what webob's int() makes of it (it also accepts e.g. full-width
+            # digits, which a real HTTP server in front would refuse)
+            declared = int(cl) if isinstance(cl, str) else None
+        except ValueError:
+            declared = None
+        if declared is not None and declared >= 0:
             sent = len(data) if data is not None else 0
-            if int(cl) > sent:
+            if declared > sent:
                 req.environ['CONTENT_LENGTH'] = str(sent)
             elif data is not None:
                 req.environ['CONTENT_LENGTH'] = cl
